@@ -22,6 +22,31 @@ class Analysis:
             self.evals[name] = symex.Evaluator(self.prog, cm)
         for name in frontend.CONTAINERS:
             self.roles[name].inert = self.compute_inert(self.prog.classes[name], self.roles[name])
+            self.roles[name].capacity_copies = self.capacity_copies(self.prog.classes[name])
+
+    def capacity_copies(self, cm):
+        """const scalar members the constructor initialises with its `capacity` argument (`const size_t m_capacity`): the capacity"""
+        out = set()
+        ctor = cm.ctor()
+        if ctor is None:
+            return out
+        try:
+            paths = self.paths(cm, ctor)
+        except Exception:
+            return out
+        for f in cm.fields:
+            if not (f.sugar or '').startswith('const ') and not (f.type or '').startswith('const '):
+                continue
+            ok = bool(paths)
+            for p in paths:
+                v = next((e[2] for e in p.trace if e[0] == 'init' and e[1] == ('fld', ('this',), f.name)), None)
+                if isinstance(v, tuple) and v and v[0] == 'ctor' and len(v) > 2 and len(v[2]) == 1:
+                    v = v[2][0]
+                if v != ('p', 'capacity'):
+                    ok = False
+            if ok:
+                out.add(f.name)
+        return out
 
     def compute_inert(self, cm, roles):
         """data members outside the container model whose value never reaches a decision, a result, another member or an
